@@ -1,0 +1,22 @@
+//go:build verif
+
+package kprapi
+
+import (
+	"net/http"
+
+	"github.com/shutter-network/rolling-shutter/rolling-shutter/keyper/epochkghandler"
+	"github.com/shutter-network/rolling-shutter/rolling-shutter/medley/broker"
+)
+
+// VerifRouter returns the handler the server would listen with (setupRouter: logger,
+// recoverer, /v1 mount with request validator + ConfigMiddleware + generated handlers).
+func VerifRouter(srv *Server) http.Handler { return srv.setupRouter() }
+
+// VerifTriggerChan exposes the channel SubmitDecryptionTrigger sends on.
+func VerifTriggerChan(srv *Server) chan *broker.Event[*epochkghandler.DecryptionTrigger] {
+	return srv.trigger
+}
+
+// VerifShutdownChan exposes the channel Shutdown sends on.
+func VerifShutdownChan(srv *Server) chan struct{} { return srv.shutdownSig }
